@@ -236,7 +236,8 @@ class LostEventMonitor:
 class EvInst:
     """letter = (trig, bus.adr, bus.we, bus.dat_w, bus.re)"""
 
-    def __init__(self, kinds, dw, ordering="big", masks="all", reads=True, disciplined=True, tag="", trigs=None):
+    def __init__(self, kinds, dw, ordering="big", masks="all", reads=True, disciplined=True, tag="", trigs=None,
+                 extra=True):
         self.kinds = list(kinds)
         self.top = EvTop(self.kinds, dw, ordering)
         self.netlist = Netlist(self.top)
@@ -265,8 +266,9 @@ class EvInst:
                     ms = masks
                 ops += [(v.bus_adr(v.local_index(reg, w)), 1, m, 0) for m in ms]
         full = (1 << min(dw, 8)) - 1
-        ops.append((v.bus_adr(v.local_index(0, 0)), 1, full, 0))                                 # write to status: no effect
-        ops.append(((1 << PAGE_BITS) | v.bus_adr(v.local_index(1, 0)), 1, full, 0))              # other page: no effect
+        if extra:
+            ops.append((v.bus_adr(v.local_index(0, 0)), 1, full, 0))                             # write to status: no effect
+            ops.append(((1 << PAGE_BITS) | v.bus_adr(v.local_index(1, 0)), 1, full, 0))          # other page: no effect
         tv = trigs if trigs is not None else range(1 << n)
         self.alphabet = [(t,) + op for t in tv for op in ops]
 
